@@ -31,6 +31,7 @@ pub struct CleanOpts {
     pub pseudo_branches: bool,
     pub main_frame: bool,
     pub spills: bool,
+    pub passthrough: bool,
 }
 
 impl CleanOpts {
@@ -47,6 +48,7 @@ impl CleanOpts {
             pseudo_branches: true,
             main_frame: true,
             spills: true,
+            passthrough: true,
         }
     }
 }
@@ -93,6 +95,8 @@ pub struct CleanInfo {
     pub early_returns: usize,
     pub ecall_lines: Vec<usize>,
     pub data_labels: Vec<String>,
+    #[serde(default)]
+    pub passthrough_functions: usize,
 }
 
 #[derive(Clone)]
@@ -234,7 +238,38 @@ impl Fb<'_, '_> {
         }
     }
 
+    /// Any environment call of the table: every argument register is set right before it, every
+    /// result register is read right after it.
+    fn ecall_any(&mut self) {
+        let pool: Vec<i64> = crate::machine::NON_EXIT_ECALLS
+            .iter()
+            .copied()
+            .filter(|n| self.o.ecall_results || crate::machine::ecall_sig(*n as i32).map(|(_, r)| r.is_empty()).unwrap_or(false))
+            .collect();
+        let n = *self.ch.pick(&pool);
+        let (args, rets) = crate::machine::ecall_sig(n as i32).unwrap_or((&[], &[]));
+        for a in args {
+            if self.ch.chance(1, 2) {
+                let c = self.ch.int_in(0, 9);
+                self.emit(ins("li", vec![r(*a), i(c)]));
+            } else {
+                let x = self.any_local();
+                self.emit(ins("mv", vec![r(*a), r(x)]));
+            }
+        }
+        self.set_a7(n);
+        let at = self.emit(ins("ecall", vec![]));
+        self.info.ecall_lines.push(at);
+        for res in rets {
+            let l = self.local();
+            self.emit(ins("add", vec![r(l), r(l), r(*res)]));
+        }
+    }
+
     fn ecall_stmt(&mut self) {
+        if self.ch.chance(1, 3) {
+            return self.ecall_any();
+        }
         let with_result = self.o.ecall_results && self.ch.chance(1, 3);
         if with_result {
             match self.ch.below(3) {
@@ -652,6 +687,47 @@ pub fn program(ch: &mut Choices, o: &CleanOpts) -> (Vec<Line>, CleanInfo) {
         let mut callees: Vec<Sig> = if leaf { vec![] } else { sigs[k + 1..].to_vec() };
         if !leaf && !is_main && o.recursion && ch.chance(1, 6) {
             callees.push(sig.clone());
+        }
+        // a leaf that hands one of its arguments back unchanged on one path (max, abs, clamp ...)
+        if leaf && sig.has_result && sig.arity >= 1 && o.passthrough && ch.chance(1, 5) {
+            let start = lines.len();
+            lines.push(Line::Label(sig.name.clone()));
+            let body_start = lines.len();
+            for extra in (2..sig.arity).rev() {
+                // further arguments are folded into the second one (every argument is read)
+                lines.push(ins("add", vec![r(A0 + 1), r(A0 + 1), r(A0 + extra as u8)]));
+            }
+            let keep = format!("{}_keep", sig.name);
+            if sig.arity >= 2 {
+                let b = ch.pick_str(&["bge", "bgeu", "blt", "beq"]);
+                lines.push(ins(b, vec![r(A0), r(A0 + 1), Opd::L(keep.clone())]));
+                lines.push(ins("mv", vec![r(A0), r(A0 + 1)]));
+            } else {
+                let b = ch.pick_str(&["bgez", "beqz", "bgtz"]);
+                lines.push(ins(b, vec![r(A0), Opd::L(keep.clone())]));
+                match ch.below(3) {
+                    0 => lines.push(ins("neg", vec![r(A0), r(A0)])),
+                    1 => lines.push(ins("li", vec![r(A0), i(ch.int_in(0, 9))])),
+                    _ => lines.push(ins("addi", vec![r(A0), r(A0), i(ch.int_in(1, 9))])),
+                }
+            }
+            let fold_start = lines.len();
+            lines.push(Line::Label(keep));
+            lines.push(ins("ret", vec![]));
+            info.passthrough_functions += 1;
+            info.funcs.push(FuncMeta {
+                name: sig.name.clone(),
+                arity: sig.arity,
+                has_result: true,
+                leaf: true,
+                locals: vec![A0],
+                body_start,
+                fold_start,
+                last_line: lines.len() - 1,
+                span: (start, lines.len()),
+                ..Default::default()
+            });
+            continue;
         }
         let n_locals = 1 + ch.below(4);
         let (locals, temps, saved): (Vec<u8>, Vec<u8>, Vec<u8>) = if leaf {
